@@ -616,14 +616,14 @@ type c12EnumPass struct {
 
 // c12EnumPasses: which (length, partition-count vectors (s0,s1,s2)) are
 // enumerated completely.  quick: length 4 over 8 vectors; thorough: length 4
-// over all 27 vectors and length 5 over 3 vectors.
+// over all 27 vectors and length 5 over 2 vectors.
 func c12EnumPasses() []c12EnumPass {
 	twelve := [][]int32{{3, 3, 3}, {1, 2, 3}, {3, 2, 1}, {2, 3, 1}, {2, 2, 2}, {1, 1, 1}, {3, 1, 2}, {1, 3, 3}, {2, 1, 3}, {3, 3, 1}, {1, 1, 3}, {2, 2, 3}}
 	if l := kit.EnvInt("VERIF_C12_LEN", 0); l > 0 {
 		return []c12EnumPass{{Len: l, Vectors: twelve[:kit.EnvInt("VERIF_C12_NVEC", 12)]}}
 	}
 	if kit.Thorough() {
-		return []c12EnumPass{{Len: 4, Vectors: c12AllVectors()}, {Len: 5, Vectors: twelve[:3]}}
+		return []c12EnumPass{{Len: 4, Vectors: c12AllVectors()}, {Len: 5, Vectors: twelve[:2]}}
 	}
 	return []c12EnumPass{{Len: 4, Vectors: twelve[:8]}}
 }
